@@ -73,6 +73,27 @@ STRENGTHENED = {
     "C19-em1": "only converter fields, two on_setattr configurations -> field kinds (shared/own converter, validator-only, plain) in every order x 11 configurations; theorem C19_assign_each_field",
     "C20-em2": "every field was an __init__ parameter -> init=False validated fields with all four kinds of default",
     "C20-em3": "nothing was observed from inside a callback -> probe callbacks run nested ops (getters, construct/assign/validate, own disabled() blocks); theorem C20_switch_moves_only_by_switch_ops",
+    "C03-fm1": "names always public, no shared aliases -> private names, explicit aliases, alias collisions with init=False fields; such classes are T3 script cases (helper name/binding seen at once)",
+    "C03-fm2": "no init=False fields, no defaults -> per-field init/default, values put in place after construction under every frozen variant; T3 sees the shorter chain",
+    "C04-fm2": "fresh decorator object per class -> decorator objects primed on a class with own __eq__/__ne__/__hash__",
+    "C05-fm1": "all values were strings -> mutable list/dict/set values, the very object stored, equal copies, real += / |= statements, class-level non-fields",
+    "C07-fm3": "nothing was asked of a class before decoration -> pre-decoration histories (has/fields/asdict/subclass), observable histAgree",
+    "C08-fm2": "wrappers were exactly cached_property/property/... -> instances of subclasses of the special-cased member types",
+    "C08-fm3": "no hash before copy, no getstate_setstate=False -> comparison group hashcopy (hash, copy/deepcopy/pickle, hash) with identity-hashed values",
+    "C09-fm2": "scripted values unhashable, key calls unobserved -> Obs.keys (key applications per call), scripted hashability incl. shared hashes; theorem C09_keys_every_comparison",
+    "C10-fm2": "distinct default aliases only -> private twins and explicit aliases colliding with init=False fields",
+    "C10-fm3": "no plain defaults -> instances whose fields all hold their declared default objects (never passed / changed and set back) x every protocol",
+    "C11-fm2": "no kw_only fields -> per-field options irrelevant to repr (kw_only, eq/order/hash, converter, validator, alias), kw_only layers",
+    "C11-fm3": "classes lived in an unregistered namespace, only __attr_repr_* bindings recorded -> synthetic registered modules binding id/getattr/AttributeError; T3 records every free name's binding; theorem C11_free_names_pinned",
+    "C12-fm2": "all values were string tokens -> attrs instances, dicts (empty / keyed by nested init names), lists as field values and changes; identity of the object handed to the initializer",
+    "C13-fm3": "no instance class was also a container -> attrs classes deriving from list/dict/set/tuple/OrderedDict at every position; theorem C13_attrs_instance_first",
+    "C16-fm1": "only the identity transformer -> observing/acting transformers over shared these dicts; Attribute objects of different classes must be distinct",
+    "C16-fm2": "bodies ran in an unregistered namespace -> synthetic registered modules whose globals change between definitions; get_type_hints and __globals__ view in the fingerprint",
+    "C17-fm2": "every class was called C -> class names from the T1 tables (helpers, builtins, names the class's own code loads); T1 table c17EvalExtraBindings + theorem C17_no_extra_bindings",
+    "C18-fm2": "in_ containers with custom membership were hashable and not iterable -> bytearray/str/bytes/range/Interval classes/containers whose __contains__ and __iter__ disagree",
+    "C19-fm2": "one cmp_using class per case from fresh functions -> histories of cmp_using calls on the same function objects with other require_same_type",
+    "C19-fm3": "callables were plain functions -> falsy / len-0 callable objects in every callable role",
+    "C20-fm1": "callback bodies had to be neutral -> non-neutral bodies in pre-validator callbacks; FIXED READING: the switch is read when the validators step is reached; theorem C20_construct_reads_switch_at_validators_step",
     "C16-m3": "catalogue classes never were layout-twins with different callables -> tagged twins, behaviour fingerprints",
 }
 
